@@ -147,6 +147,12 @@ class PyEncoder:
         self.outward, _ = ref_tables()
         self.blocks = []  # (chan, samples)
 
+    def range(self, *vals):
+        """int32 arithmetic of the decoder would wrap: not a stream a conforming encoder writes"""
+        for v in vals:
+            if not -2147483648 <= v < 2147483648:
+                self.trusted = False
+
     def unfix(self, s):
         f, b = self.ftype, self.shift
         if f == TYPE_AU1:
@@ -197,6 +203,7 @@ class PyEncoder:
             for v in vs:
                 p = [co, buf[0], 2 * buf[0] - buf[1], 3 * (buf[0] - buf[1]) + buf[2]][pred]
                 w.var(resn, v - p)
+                self.range(v - p, v)
                 buf.insert(0, v)
         else:
             qs = list(pred)
@@ -210,9 +217,13 @@ class PyEncoder:
             if self.bs < self.nwrap and qs and co:
                 self.trusted = False  # the decoder leaves shifted samples in its history
             buf = [x - co for x in h]
+            self.range(*qs)
+            self.range(*buf[: len(qs)])
             for v in vs:
-                p = (self.lpcqoffset + sum(q * (buf[j] if j < len(buf) else 0) for j, q in enumerate(qs))) >> 5
+                sm = self.lpcqoffset + sum(q * (buf[j] if j < len(buf) else 0) for j, q in enumerate(qs))
+                p = sm >> 5
                 w.var(resn, (v - co) - p)
+                self.range(sm, (v - co) - p, v - co, v)
                 buf.insert(0, v - co)
         self.hist[chan] = (vs[::-1] + h)[: self.nwrap]
         if nmean > 0:
@@ -220,6 +231,7 @@ class PyEncoder:
             m = c99_div(sm, self.bs)
             if version >= 2:
                 m <<= shift
+            self.range(m)
             self.off[chan] = self.off[chan][1:nmean] + [m]
         self.blocks.append((chan, list(samples), self.bs))
         self.chan = (chan + 1) % self.nchan
@@ -582,8 +594,10 @@ def corr_encoder(ctx, impl, n_cases):
 # correspondence B: model decoder vs implementation decoder on arbitrary streams
 
 
-def header_ok_for_eval(payload):
-    """pre-screen: skip streams whose header asks for absurd allocations"""
+def header_ok_for_eval(payload, nchan_hdr=None):
+    """pre-screen: skip streams whose header asks for absurd allocations, or (after a
+    bit flip) a channel count other than the SPHERE header's: copy_samples then returns
+    sample_count * channel_count items of which the decoder wrote only a part"""
     if len(payload) < 9 or payload[:4] != b"ajkg":
         return True
     bits = []
@@ -618,6 +632,8 @@ def header_ok_for_eval(payload):
     except EOFError:
         return True
     ftype, nchan, bs, maxnlpc, nmean, nskip = vals
+    if nchan_hdr is not None and nchan != nchan_hdr:
+        return False
     return nchan <= 64 and bs <= 5000 and maxnlpc <= 200 and nmean <= 200 and nskip <= 5000 and nchan * (bs + maxnlpc) <= 100000
 
 
@@ -700,8 +716,8 @@ def corr_decoder(ctx, impl, n_cases, extra_streams=()):
         todo.append((payload, meta))
     while len(todo) < n_cases + len(extra_streams):
         payload, meta = gen_stream(ctx, r)
-        if not header_ok_for_eval(payload):
-            ctx.count("B:skipped-huge-header")
+        if not header_ok_for_eval(payload, max(1, meta["case"]["nchan"])):
+            ctx.count("B:skipped-huge-or-inconsistent-header")
             continue
         todo.append((payload, meta))
     rows = []
